@@ -35,7 +35,7 @@ def main():
         import re
         dp = os.path.join(wt, "_out", "x", "demo.py")
         src_txt = open(dp).read()
-        new_txt = re.sub(r"/tmp/w[0-9t]_C[0-9][0-9]", wt, src_txt)
+        new_txt = re.sub(r"/tmp/w[0-9t]+_C[0-9][0-9]", wt, src_txt)
         if new_txt != src_txt:
             open(dp, "w").write(new_txt)
             meta["demo_path_rewritten"] = "the author's worktree path inside demo.py was replaced by the scratch worktree for this confirmation"
